@@ -3,6 +3,7 @@ import AcraModel.Keystore.V2Store
 import AcraModel.Keystore.Lemmas
 import AcraModel.Keystore.RingLemmas
 import AcraModel.Keystore.V1Lemmas
+import AcraModel.Keystore.RefineV1Step
 /-!
 # C06 — rotation keeps old data readable; destruction removes exactly the chosen key
 
@@ -138,6 +139,71 @@ theorem rotation_agrees_example :
     ((((V1.init 0).run ops).1).step (.cur ss0)).2 = .key 3 ∧
     (((V2.init.run ops).1).step (.all ss0)).2 = .keys [3, 2] ∧
     (((V2.init.run ops).1).step (.cur ss0)).2 = .key 3 := by decide +kernel
+
+/-! ## refinement: the v1 store (no cache) shows exactly what the specification prescribes -/
+
+/-- **The lifted specification is the specification.** `Spec.stepApi` (the specification over the
+whole operation alphabet, used by the refinement theorems) moves the state exactly like `Spec.step`
+on every operation Acra's API has, and shows `Spec.step`'s observation for generate, read current
+(the poison pair as `pair g g`), read all and destroy. What it adds is only what the API shows of
+the same state for the public key and the two listings. -/
+theorem spec_lifting_conservative (fmt : Fmt) (st : Spec) (o : Op) (h : o.inApi = true) :
+    (Spec.stepApi fmt st o).1 = (Spec.step st o).1 ∧
+    (match o with
+      | .gen _ | .all _ | .drot _ _ | .dcur _ => (Spec.stepApi fmt st o).2 = (Spec.step st o).2
+      | .cur s => if s.kind = .pp then
+            (Spec.stepApi fmt st o).2 = (match (Spec.step st o).2 with | .key g => .pair g g | x => x)
+          else (Spec.stepApi fmt st o).2 = (Spec.step st o).2
+      | _ => True) :=
+  ⟨Spec.stepApi_state fmt st o h, Spec.stepApi_obs fmt st o h⟩
+
+/-- **v1_step_simulation.** One operation of the v1 keystore without cache, from any state that
+satisfies the run invariant (`V1.Inv`: per key file the current file holds the newest generation and
+the history directory the older survivors in order; public files mirror private ones), other than
+destroy-current: the invariant holds again, the abstraction function `V1.abs` commutes with the step,
+and the store shows exactly the specification's observation. -/
+theorem v1_step_simulation (st : V1) (o : Op) (hinv : st.Inv) (ho : o.isDcur = false) :
+    (st.step o).1.Inv ∧ (st.step o).1.abs = (Spec.stepApi .v1 st.abs o).1 ∧
+    (st.step o).2 = (Spec.stepApi .v1 st.abs o).2 :=
+  V1.step_sim st o hinv ho
+
+/-- **v1_refines_spec.** For every finite sequence of operations on a fresh v1 keystore without
+cache – generate/rotate, read current, read public, read all, list, list rotated, destroy rotated by
+any index, reset, reopen, on any slots; *excluding destroy-current* (known finding, see
+`current_is_newest_survivor_counterexample`) – every observation of the run equals the
+specification's, and the abstraction of the final store is the specification's final state. Hence:
+the current key is the most recently generated surviving one, all survivors are offered newest first,
+the rotated listing numbers them from 2, and destroy-by-listed-index removes exactly the listed key. -/
+theorem v1_refines_spec (ops : List Op) (hops : ∀ o ∈ ops, o.isDcur = false) :
+    ((V1.init (-1)).run ops).2 = (Spec.runApi .v1 Spec.init ops).2 ∧
+    ((V1.init (-1)).run ops).1.abs = (Spec.runApi .v1 Spec.init ops).1 := by
+  have h := V1.run_sim ops (V1.init (-1)) V1.Inv.init hops
+  have habs : (V1.init (-1)).abs = Spec.init := rfl
+  rw [habs] at h
+  exact ⟨h.2.2, h.2.1⟩
+
+/-- The same for a single symmetric-key slot, in the specification's own words: after any such run,
+reading the current key of the slot gives the newest surviving generation and read-all gives all
+survivors newest first. -/
+theorem v1_current_is_newest_survivor (ops : List Op) (hops : ∀ o ∈ ops, o.isDcur = false) (s : Slot)
+    (hk : s.kind = .ss) :
+    let spec := (Spec.runApi .v1 Spec.init ops).1
+    let st := ((V1.init (-1)).run ops).1
+    (st.step (.cur s)).2 = (match (spec s).survivors.getLast? with | some g => .key g | none => .err) ∧
+    (st.step (.all s)).2 = (if (spec s).survivors = [] then .err else .keys (spec s).survivors.reverse) := by
+  have h := V1.run_sim ops (V1.init (-1)) V1.Inv.init hops
+  have habs : (V1.init (-1)).abs = Spec.init := rfl
+  rw [habs] at h
+  obtain ⟨hinv, ha, _⟩ := h
+  have h1 := (V1.step_sim _ (.cur s) hinv rfl).2.2
+  have h2 := (V1.step_sim _ (.all s) hinv rfl).2.2
+  rw [ha] at h1 h2
+  simp only
+  rw [h1, h2]
+  constructor
+  · simp only [Spec.stepApi, hk, SpecSlot.current]
+    cases ((Spec.runApi Fmt.v1 Spec.init ops).fst s).survivors.getLast? <;> simp
+  · simp [Spec.stepApi, Spec.step, hk, SpecSlot.allNewestFirst, Kind.hasAll]
 
 /-! ## non-vacuity -/
 
